@@ -23,7 +23,10 @@ _BLOCKS = ("body", "orelse", "finalbody")
 
 
 def _chain(e: ast.AST) -> Optional[Tuple[str, Set[str]]]:
-    """(base name, attribute names) of a pure attribute / constant-subscript chain"""
+    """(base name, attribute names) of a pure attribute / constant-subscript chain, or of a comparison of such a chain
+    with constants (`version >= 3`: an explaining boolean)"""
+    if isinstance(e, ast.Compare) and all(isinstance(c, ast.Constant) for c in e.comparators) and not isinstance(e.left, ast.Name):
+        return _chain(e.left)
     attrs: Set[str] = set()
     n = 0
     while True:
@@ -32,7 +35,9 @@ def _chain(e: ast.AST) -> Optional[Tuple[str, Set[str]]]:
             e = e.value
             n += 1
         elif isinstance(e, ast.Subscript) and isinstance(e.slice, ast.Constant):
+            attrs.add(f"[{e.slice.value!r}]")
             e = e.value
+            n += 1
         elif isinstance(e, ast.Name):
             return (e.id, attrs) if n else None
         else:
@@ -55,6 +60,8 @@ def _stores(st: ast.AST) -> Tuple[Set[str], Set[str]]:
             names.add(x.id)
         elif isinstance(x, ast.Attribute) and isinstance(x.ctx, (ast.Store, ast.Del)):
             attrs.add(x.attr)
+        elif isinstance(x, ast.Subscript) and isinstance(x.ctx, (ast.Store, ast.Del)) and isinstance(x.slice, ast.Constant):
+            attrs.add(f"[{x.slice.value!r}]")
         elif isinstance(x, ast.ExceptHandler) and x.name:
             names.add(x.name)
     return names, attrs
